@@ -370,8 +370,10 @@ def bases():
     q.append(Base(tc.t1_case(512, 0x4C, fill=257), 254))
     t.append(Base(tc.t1_case(512, 0x4C, 0, 'none'), 254))
     t.append(Base(tc.t1_case(512, 0x4C, 0, 'none'), 255))
-    t.append(Base(tc.t1_case(120, 0x00, 1, 'tail2', 2), 30))
-    t.append(Base(tc.t1_case(256, 0x00, 0, 'endx', 2), 100))
+    # (reserved range ending exactly at / across the end of the memory: also
+    # in the quick tier, a seeded change needed exactly this layout)
+    q.append(Base(tc.t1_case(120, 0x00, 1, 'tail2', 2), 30))
+    q.append(Base(tc.t1_case(256, 0x00, 0, 'endx', 2), 100))
     # Type 2: every product class, static / dynamic, control TLV classes,
     # proprietary TLV with 1- and 3-byte length, 3-byte NDEF length, 2 sectors
     q.append(Base(tc.t2_case(48, 'ul', 1, 'none'), 7))
